@@ -16,5 +16,5 @@ Extraction "model.ml" m_step m_init bcmp sha256 uvarint_enc uvarint_dec varint_e
   Iter.iter_tree Iter.it_collect_tree Iter.fast_collect Iter.uf_collect
   ExportImport.export imp_run_sha cimp_run_sha ExportImport.compress ExportImport.decompress
   Codec.decode_node Codec.decode_legacy_node Codec.decode_fast_node Codec.encode_node Codec.encode_fast_node
-  Codec.node_key_bytes Codec.classify_root Codec.fast_storage_label Codec.db_node_key Codec.db_fast_key Codec.storage_version_key
+  Codec.node_key_bytes Codec.classify_root Codec.fast_storage_label Codec.db_node_key Codec.db_fast_key Codec.db_meta_key
   Codec.root_ref_value.
